@@ -20,7 +20,7 @@ EXPLANATION = (
     'cancels the RSocket subscription unless the stream already terminated; terminal signals of the stream mark it '
     'done; (e) the channel handler adapter wires the observable to a publisher and the observer to a subscriber with '
     'the channel\'s limit. Not decided: element-for-element equivalence with the core API.')
-EXPLANATION_ADDED = ("(g) the observable-to-publisher feeders turn every notification into its signal once (OnNext/OnError/OnCompleted, generator values, end and failure), credit published on the feedback subject reaches the feeder's queue and its completion cancels the feeder, the publisher wrapper subscribes the subscriber through its adapter and forwards request/cancel; the request is sent from inside the task whose cancellation sends CANCEL; batch counting of the Rx subscribers (C06.a). No call of a library coroutine function is dropped as a statement or returned un-awaited from another coroutine function (C15.d): the call-backs the library awaits - keepalive timeout included - reach the application through the handler adapters. (i) credit enters the feedback Subject of an observable-backed publisher from request(n) only, carrying the requester's n. (j) each request-response served through a handler adapter gets a future of its own: the to_future() operator (which allocates its Future on creation) is created inside request_response, not kept on the adapter.")
+EXPLANATION_ADDED = ("(g) the observable-to-publisher feeders turn every notification into its signal once (OnNext/OnError/OnCompleted, generator values, end and failure), credit published on the feedback subject reaches the feeder's queue and its completion cancels the feeder, the publisher wrapper subscribes the subscriber through its adapter and forwards request/cancel; the request is sent from inside the task whose cancellation sends CANCEL; batch counting of the Rx subscribers (C06.a). No call of a library coroutine function is dropped as a statement or returned un-awaited from another coroutine function (C15.d): the call-backs the library awaits - keepalive timeout included - reach the application through the handler adapters. (i) credit enters the feedback Subject of an observable-backed publisher from request(n) only, carrying the requester's n. (j) each request-response served through a handler adapter gets a future of its own: the to_future() operator (which allocates its Future on creation) is created inside request_response, not kept on the adapter. (k) no function that builds and returns an object of a library class (publisher, subscriber, adapter) carries a memoising decorator: each interaction gets an object of its own.")
 EXPLANATION = EXPLANATION.replace(' Not decided', ' ' + EXPLANATION_ADDED + ' Not decided', 1) \
     if ' Not decided' in EXPLANATION else EXPLANATION + ' ' + EXPLANATION_ADDED
 ASSUMPTIONS = COMMON_ASSUMPTIONS
@@ -779,6 +779,13 @@ def rule_j(ctx):
                 detail or 'observable.pipe(..., to_future()) with the operator created inside the call')
 
 
+def rule_k(ctx):
+    """The adapters build a new publisher / subscriber per interaction: no factory of a library object is memoised
+    (rules/binding.py)."""
+    from .binding import rule_no_memoised_factories
+    rule_no_memoised_factories(ctx, 'C20.k', ['rsocket', 'reactivestreams'], 'library factories')
+
+
 def rule_coroutines(ctx):
     """Every coroutine the library creates is run: the keepalive-timeout (and every other) call-back reaches the
     application through the handler adapters only if the adapter awaits the delegate (rules/binding.py)."""
@@ -786,4 +793,4 @@ def rule_coroutines(ctx):
     rule_coroutines_run(ctx, 'C15.d', ['rsocket', 'reactivestreams'], 'library coroutine calls')
 
 
-RULES = [('C20.a', rule_a), ('C20.b', c06a), ('C20.c', c06b), ('C20.d', rule_d), ('C20.e', rule_e), ('C20.f', rule_f), ('C20.g', rule_g), ('C20.e+C20.g', rule_h), ('C15.d', rule_coroutines), ('C20.i', rule_i), ('C20.j', rule_j)]
+RULES = [('C20.a', rule_a), ('C20.b', c06a), ('C20.c', c06b), ('C20.d', rule_d), ('C20.e', rule_e), ('C20.f', rule_f), ('C20.g', rule_g), ('C20.e+C20.g', rule_h), ('C15.d', rule_coroutines), ('C20.i', rule_i), ('C20.j', rule_j), ('C20.k', rule_k)]
